@@ -704,7 +704,60 @@ def sink_contained(ctx, res):
     if n == 0:
         raise AnalysisError("_log_exception: no formatting of user objects "
                             "found")
-    res.floor(2)
+    # the sink of the observe framework: the event (which holds the user's
+    # old/new values) is handed to the logger as a lazy argument - the
+    # logging package contains a failing __repr__ - and never formatted
+    # eagerly
+    OEH = "traits/observation/exception_handling.py"
+    omod = repo.module(OEH)
+    ofn = repo.func(OEH, "ObserverExceptionHandler._log_exception")
+    ops = {a.arg for a in ofn.args.args[1:]}
+    oparents = {}
+    for p_ in ast.walk(ofn):
+        for c in ast.iter_child_nodes(p_):
+            oparents[id(c)] = p_
+
+    def ocontained(node):
+        p_ = oparents.get(id(node))
+        child = node
+        while p_ is not None:
+            if isinstance(p_, ast.Try) and any(child is s_ for s_ in p_.body) \
+                    and any(h.type is None or norm(h.type) in (
+                        "Exception", "BaseException") for h in p_.handlers):
+                return True
+            child = p_
+            p_ = oparents.get(id(p_))
+        return False
+    lazy = 0
+    for x in ast.walk(ofn):
+        if isinstance(x, ast.Call) and isinstance(x.func, ast.Attribute) \
+                and x.func.attr in ("exception", "error", "warning", "log") \
+                and any(isinstance(a, ast.Name) and a.id in ops
+                        for a in x.args[1:]):
+            lazy += 1
+        eager = isinstance(x, ast.JoinedStr) \
+            or (isinstance(x, ast.BinOp) and isinstance(x.op, ast.Mod)) \
+            or (isinstance(x, ast.Call) and (
+                norm(x.func) in ("str", "repr", "format")
+                or (isinstance(x.func, ast.Attribute)
+                    and x.func.attr == "format")))
+        if eager and ({n2.id for n2 in ast.walk(x)
+                       if isinstance(n2, ast.Name)} & ops):
+            res.oblige(ocontained(x),
+                       "ObserverExceptionHandler._log_exception:"
+                       "uncontained-format", omod.loc(x),
+                       f"`{norm(x)[:70]}` converts the event (the user's old "
+                       f"and new values) to text eagerly and outside a "
+                       f"guarding try: a raising __repr__ escapes from the "
+                       f"exception sink of observe, the remaining handlers "
+                       f"are skipped and the assignment raises")
+    res.instance("ObserverExceptionHandler._log_exception", omod.loc(ofn),
+                 lazy_logging_calls=lazy)
+    res.oblige(lazy >= 1 or any(isinstance(x, ast.Try) for x in ast.walk(ofn)),
+               "ObserverExceptionHandler._log_exception:lazy", omod.loc(ofn),
+               "the observe exception sink neither hands the event to the "
+               "logger as a lazy argument nor guards its formatting")
+    res.floor(3)
 
 
 
